@@ -264,7 +264,8 @@ Section Order.
   (* slider sanity: the window lies inside the trace (true of every slider the handler builds from
      well-formed traces; the trace handler checks it whenever it moves a window) *)
   Definition slider_ok (s : slider C) : Prop :=
-    s_seen C s <= s_len C s /\ s_pos C s + (s_len C s - s_seen C s) <= len_N (s_trace C s).
+    s_seen C s <= s_len C s /\ s_pos C s + (s_len C s - s_seen C s) <= len_N (s_trace C s) /\
+    len_N (s_trace C s) <= Handler.u32_max.        (* TraceLen is u32 in the code *)
   Definition handler_ok (h : handler) : Prop :=
     slider_ok (k_prev C (h_keeper C h)) /\ slider_ok (k_cur C (h_keeper C h)).
 
@@ -325,16 +326,23 @@ Definition C09_exec_driven_stmt : Prop :=
   forall (E : stream_hook), streams_off E ->
     forall fuel i x, xres_sat exec_driven x (exec E fuel i x).
 
+(* what the farewell step may do to the result trace: renumber generations, nothing else *)
+Definition finish_keeps_knowledge (finish : ctx -> ctx + uncatchable) : Prop :=
+  forall x x1, finish x = inl x1 ->
+    knowledge cid (result_trace cid (x_handler x1)) = knowledge cid (result_trace cid (x_handler x)).
+
 (* C09_consumed_partial: a run of the executor (no stream instruction executed) that returns new data
    is a driven run of the handler; when the windows of that very run are consumed -- a computable
    check on the driver forest -- no result of the previous or of the current trace is forgotten *)
 Definition C09_consumed_partial_stmt : Prop :=
-  forall (E : stream_hook), streams_off E ->
+  forall (E : stream_hook) (finish : ctx -> ctx + uncatchable), streams_off E -> finish_keeps_knowledge finish ->
     forall fuel i code d next reqs signed,
-      run E no_finish fuel i = OutNewData code d next reqs signed ->
+      len_N (d_trace (ri_prev i)) <= Handler.u32_max -> len_N (d_trace (ri_cur i)) <= Handler.u32_max ->
+      run E finish fuel i = OutNewData code d next reqs signed ->
       exists ds,
         let h0 := handler_from cid (d_trace (ri_prev i)) (d_trace (ri_cur i)) in
-        (exists h', driven cid cid_eqb false ds h0 h' /\ d_trace d = k_result cid (h_keeper cid h')) /\
+        (exists h', driven cid cid_eqb false ds h0 h' /\
+                    knowledge cid (d_trace d) = knowledge cid (k_result cid (h_keeper cid h'))) /\
         (windows_consumed_b cid cid_eqb ds h0 = true ->
          keeps_both cid cid_eqb (d_trace (ri_prev i)) (d_trace (ri_cur i)) (d_trace d)).
 
